@@ -28,4 +28,10 @@ CHECKS = {
   'note': COMMON_NOTE + 'Levels are compared by code (a second level registered with MAX\'s code but another name is outside the model); references of one logger are assumed to name distinct appenders; strings.TrimSpace/ToUpper are modelled for ASCII; the async queue itself is C04-C06. Non-separate rolling loggers do not deliver levels >= MAX (stated in c01_rolling).',
   'technique': 'Coq proof (refinement of sort+chain to a declarative effective-range spec, permutation invariance) + differential correspondence through Refresh',
  },
+ 'C02': {
+  'text': 'Full on the model: c02_route proves for every tag without * and without doubled underscores (c02_valid_tags_clean: every registered tag) and every tag map that findLoggerForTag returns the literal listing, else the logger listing P_* for the longest proper underscore-delimited prefix P (c02_prefixes_exact characterises the candidates), else root; c02_bind_ok / c02_error_iff prove that the map built by Refresh is exactly the union of the listings and that Refresh fails iff the root lists tags, a non-root logger lists none, a wildcard is malformed or two different loggers list the same string - a symmetric condition, hence independent of key/map order. '
+          'Correspondence: per universe of ~80 registered tags, generated logger sets through Refresh; every registered tag is logged and the serving appender observed.',
+  'note': COMMON_NOTE + 'The attribute value is trimmed before use (injectAttribute), modelled in the driver; strings.TrimSpace modelled for ASCII; tag lists containing ${...} are excluded (C15).',
+  'technique': 'Coq proof (fuelled recursion refined to a declarative longest-prefix spec; accumulator invariant for the tag map) + differential correspondence through Refresh',
+ },
 }
